@@ -51,6 +51,20 @@ def make_cfg(rng, qcd, scvar, direction, pt="unpol"):
         pairs.append(("wall-upper-nf", eps, add(wall, nup), add(wall * (1 + eps), nup)))
         pairs.append(("initial-scale+", eps, add(mu0, nf0), add(mu0 * (1 + eps), nf0)))
         pairs.append(("initial-scale-", eps, add(mu0, nf0), add(mu0 * (1 - eps), nf0)))
+    xif = float(rng.choice([0.5, 2.0])) if scvar else 1.0
+    if scvar and hi > 2.4 * lo and rng.random() < 0.7:
+        # place mu0 such that mu0/xif lies inside the same patch
+        a, b = (lo * 1.05, hi * 0.45) if xif == 0.5 else (lo * 2.2, hi * 0.9)
+        mu0 = float(np.exp(rng.uniform(np.log(a), np.log(b))))
+    # interior point where the two coupling arguments of the last segment coincide bit for bit
+    # (xif^2 mu^2 == mu0^2, i.e. a1 == a0 in the expanded scheme): kernels take their "no evolution" shortcuts there
+    if scvar:
+        mu_c = mu0 / xif
+        plo, phi = (lo, hi) if direction == "up" else (lo, hi)
+        if plo * 1.01 < mu_c < phi * 0.99:
+            for eps in (1e-6, 1e-4, 1e-3):
+                pairs.append(("coupling-coincidence+", eps, add(mu_c, nf0), add(mu_c * (1 + eps), nf0)))
+                pairs.append(("coupling-coincidence-", eps, add(mu_c, nf0), add(mu_c * (1 - eps), nf0)))
     cfg = dict(
         qcd=qcd,
         qed=0,
@@ -63,7 +77,7 @@ def make_cfg(rng, qcd, scvar, direction, pt="unpol"):
         xgrid=[float(x) for x in np.geomspace(1e-2, 1.0, int(rng.choice([3, 4])))],
         degree=int(rng.choice([1, 2])),
         scvar=scvar,
-        xif=float(rng.choice([0.5, 2.0])) if scvar else 1.0,
+        xif=xif,
         inversion="exact" if direction == "down" else None,
         iters=2,
         alphas=float(rng.uniform(0.11, 0.12)),
@@ -156,6 +170,8 @@ def run(ck):
             if len(g) < 3:
                 continue
             ck.hit("pairs_compared", 3)
+            if kind.startswith("coupling-coincidence"):
+                ck.hit("coincidence_points", 1)
             p6, p4, p3 = g[1e-6], g[1e-4], g[1e-3]
             noise = max(p6["noise"], p4["noise"], p3["noise"])
             # (A) tiny displacement: the operator must not move by more than a generous Lipschitz bound
